@@ -132,6 +132,10 @@ pub fn run(sc: &Value) -> Value {
             std::fs::write(dest.join(".profile"), b"old").unwrap();
             std::fs::write(dest.join(".config/app"), b"old").unwrap();
         }
+        "only-lost+found" => {
+            std::fs::create_dir_all(dest.join("lost+found")).unwrap();
+            std::fs::write(dest.join("lost+found/precious"), b"precious").unwrap();
+        }
         "only-symlinks" => {
             std::fs::create_dir_all(&dest).unwrap();
             std::os::unix::fs::symlink("../out/sentinel", dest.join("existing")).unwrap();
